@@ -209,3 +209,12 @@ def pawn_pushes(s, color, occ):
         if not (occ >> t2 & 1):
             out |= bit(t2)
     return out
+
+
+def sq_index(name):
+    """'E4' / 'e4' -> 0..63"""
+    return "abcdefgh".index(name[0].lower()) + 8 * (int(name[1]) - 1)
+
+
+def sq_name(i):
+    return FILES[i & 7] + str((i >> 3) + 1)
